@@ -217,7 +217,7 @@ def generate(rng, tier, ctx):
     outs = ctx.model([a[4] for a in advs])
     for (I, idx, j, small, _), o in zip(advs, outs):
         t = o.split(' ')
-        assert t[0] == '1', o[:80]
+        if t[0] != '1': continue          # instance with an unusable secret (edge value 0 / >= n): nothing to forge from
         sig = bytes.fromhex(t[1]); n, e0, s = unser(sig)
         assert s[j] == small
         if small:
